@@ -5,6 +5,7 @@
 //     New/newGroupSignGenerator) and whether its argument is model.Param.GetGroupK(...)
 //   - every call of RecoverGroupSignature and whether it is reached only under
 //     `len(witnessSignMap) >= threshold`
+//
 // and writes lean/Rangers/Generated/Bn256Consts.lean and C13Sites.lean.
 // Pure go/ast; no go-rangers package is imported, so it runs even if the tree does not build.
 package main
@@ -120,7 +121,7 @@ func funcDecl(f *ast.File, recv, name string) *ast.FuncDecl {
 
 type site struct {
 	File, Func, Callee, Arg string
-	ViaGroupK                bool
+	ViaGroupK               bool
 }
 
 type rsite struct {
@@ -376,6 +377,187 @@ func main() {
 		twins = append(twins, twinFact{name, tm[name] == tl[name]})
 	}
 
+	// ---- package-level state on the property's path (groupsig, bn256, base): no function may
+	// write a package-level variable (assignment, ++/--, or a mutating method such as
+	// Set/Add/Mul/Mod/Exp/ModInverse/Unmarshal/MakeAffine called ON a package-level variable), and
+	// no fork flag (IsProposalNNN / LocalChainConfig / GetBlockHeight) is read there.
+	mutators := map[string]bool{"Set": true, "SetBytes": true, "SetString": true, "SetInt64": true, "SetUint64": true,
+		"Add": true, "Sub": true, "Mul": true, "Mod": true, "Exp": true, "ModInverse": true, "ModSqrt": true, "Neg": true,
+		"Lsh": true, "Rsh": true, "Div": true, "Quo": true, "Rem": true, "Sqrt": true, "Square": true, "Invert": true, "Double": true,
+		"Unmarshal": true, "MakeAffine": true, "SetInfinity": true, "SetZero": true, "SetOne": true, "Conjugate": true,
+		"ScalarMult": true, "ScalarBaseMult": true, "Frobenius": true, "FrobeniusP2": true, "MulScalar": true, "MulXi": true, "MulTau": true,
+		"Deserialize": true, "SetHexString": true, "SetBigInt": true, "HashToPoint": true, "Finalize": true}
+	var stateWrites, forkReads []string
+	scanned := 0
+	for _, dir := range []string{filepath.Join(cons, "groupsig"), filepath.Join(cons, "groupsig", "bn256"), filepath.Join(cons, "base")} {
+		var pf []string
+		for _, p := range files {
+			if filepath.Dir(p) == dir {
+				pf = append(pf, p)
+			}
+		}
+		// .go files of bn256 that are not under src/consensus walk (all are); collect package vars
+		pkgVars := map[string]bool{}
+		for _, p := range pf {
+			for _, d := range parsed[p].Decls {
+				if gd, ok := d.(*ast.GenDecl); ok && gd.Tok == token.VAR {
+					for _, sp := range gd.Specs {
+						for _, nm := range sp.(*ast.ValueSpec).Names {
+							if nm.Name != "_" {
+								pkgVars[nm.Name] = true
+							}
+						}
+					}
+				}
+			}
+		}
+		for _, p := range pf {
+			rel, _ := filepath.Rel(repo, p)
+			scanned++
+			for _, d := range parsed[p].Decls {
+				fd, ok := d.(*ast.FuncDecl)
+				if !ok || fd.Body == nil {
+					continue
+				}
+				// names bound locally (params, receivers, := and var declarations) shadow package vars
+				local := map[string]bool{}
+				addFields := func(fl *ast.FieldList) {
+					if fl == nil {
+						return
+					}
+					for _, f := range fl.List {
+						for _, nm := range f.Names {
+							local[nm.Name] = true
+						}
+					}
+				}
+				addFields(fd.Recv)
+				addFields(fd.Type.Params)
+				addFields(fd.Type.Results)
+				// local names bound directly to a package-level variable (x := pkgVar, var x = pkgVar):
+				// a mutating method on such an alias writes the package variable
+				alias := map[string]bool{}
+				isPkgIdent := func(e ast.Expr) bool {
+					if u, ok := e.(*ast.UnaryExpr); ok && u.Op == token.AND {
+						e = u.X
+					}
+					id, ok := e.(*ast.Ident)
+					return ok && pkgVars[id.Name] && !local[id.Name]
+				}
+				ast.Inspect(fd.Body, func(n ast.Node) bool {
+					switch x := n.(type) {
+					case *ast.AssignStmt:
+						if x.Tok == token.DEFINE {
+							for i, l := range x.Lhs {
+								if id, ok := l.(*ast.Ident); ok {
+									if len(x.Rhs) == len(x.Lhs) && isPkgIdent(x.Rhs[i]) {
+										alias[id.Name] = true
+									}
+									local[id.Name] = true
+								}
+							}
+						}
+					case *ast.ValueSpec:
+						for i, nm := range x.Names {
+							if len(x.Values) == len(x.Names) && isPkgIdent(x.Values[i]) {
+								alias[nm.Name] = true
+							}
+							local[nm.Name] = true
+						}
+					case *ast.RangeStmt:
+						if x.Tok == token.DEFINE {
+							for _, e := range []ast.Expr{x.Key, x.Value} {
+								if id, ok := e.(*ast.Ident); ok {
+									local[id.Name] = true
+								}
+							}
+						}
+					}
+					return true
+				})
+				root := func(e ast.Expr) string {
+					for {
+						switch x := e.(type) {
+						case *ast.Ident:
+							return x.Name
+						case *ast.SelectorExpr:
+							e = x.X
+						case *ast.IndexExpr:
+							e = x.X
+						case *ast.StarExpr:
+							e = x.X
+						case *ast.ParenExpr:
+							e = x.X
+						case *ast.UnaryExpr:
+							e = x.X
+						default:
+							return ""
+						}
+					}
+				}
+				isPkg := func(e ast.Expr) bool {
+					r := root(e)
+					return r != "" && ((pkgVars[r] && !local[r]) || alias[r])
+				}
+				ast.Inspect(fd.Body, func(n ast.Node) bool {
+					switch x := n.(type) {
+					case *ast.AssignStmt:
+						if x.Tok != token.DEFINE {
+							for _, l := range x.Lhs {
+								if isPkg(l) {
+									stateWrites = append(stateWrites, rel+":"+fd.Name.Name+": "+show(x))
+								}
+							}
+						}
+					case *ast.IncDecStmt:
+						if isPkg(x.X) {
+							stateWrites = append(stateWrites, rel+":"+fd.Name.Name+": "+show(x))
+						}
+					case *ast.CallExpr:
+						// gfpAdd(c, a, b) style helpers write through their first argument
+						if id, ok := x.Fun.(*ast.Ident); ok && len(x.Args) > 0 {
+							switch id.Name {
+							case "gfpAdd", "gfpSub", "gfpMul", "gfpNeg", "montEncode", "montDecode", "copy":
+								if isPkg(x.Args[0]) {
+									stateWrites = append(stateWrites, rel+":"+fd.Name.Name+": "+show(x))
+								}
+							}
+						}
+						if se, ok := x.Fun.(*ast.SelectorExpr); ok {
+							if mutators[se.Sel.Name] && isPkg(se.X) {
+								stateWrites = append(stateWrites, rel+":"+fd.Name.Name+": "+show(x))
+							}
+							if strings.HasPrefix(se.Sel.Name, "IsProposal") || se.Sel.Name == "GetBlockHeight" || se.Sel.Name == "LocalChainConfig" {
+								forkReads = append(forkReads, rel+":"+fd.Name.Name+": "+show(x))
+							}
+						}
+					case *ast.SelectorExpr:
+						if x.Sel.Name == "LocalChainConfig" {
+							forkReads = append(forkReads, rel+":"+fd.Name.Name+": "+show(x))
+						}
+					}
+					return true
+				})
+			}
+		}
+	}
+	// fork flags on the rest of the path (generators, DKG, threshold)
+	for _, rel0 := range []string{"model/group_sign.go", "model/param.go", "logical/round_sign_piece.go", "logical/group_create/group_node_info.go"} {
+		p := filepath.Join(cons, rel0)
+		if parsed[p] == nil {
+			die("path file %s not found", rel0)
+		}
+		scanned++
+		ast.Inspect(parsed[p], func(n ast.Node) bool {
+			if se, ok := n.(*ast.SelectorExpr); ok {
+				if strings.HasPrefix(se.Sel.Name, "IsProposal") || se.Sel.Name == "LocalChainConfig" {
+					forkReads = append(forkReads, rel0+": "+show(se))
+				}
+			}
+			return true
+		})
+	}
+
 	// ---- write Lean
 	var b strings.Builder
 	b.WriteString("/-! GENERATED by gen/cmd/c13facts from the go-rangers working tree; do not edit.\n")
@@ -424,7 +606,22 @@ func main() {
 		}
 		fmt.Fprintf(&s, "  (%s, %v)%s\n", lq(x.Name), x.Same, sep)
 	}
-	s.WriteString("]\n\nend Rangers.Generated.C13Sites\n")
+	s.WriteString("]\n\n/-- writes to package-level variables (assignment, increment, mutating method or gfpXxx(dst, ..) on a package variable) in\n    packages groupsig, groupsig/bn256, base -/\ndef packageStateWrites : List String := [")
+	for i, x := range stateWrites {
+		if i > 0 {
+			s.WriteString(", ")
+		}
+		s.WriteString(lq(x))
+	}
+	s.WriteString("]\n\n/-- reads of fork flags (IsProposalNNN, LocalChainConfig, GetBlockHeight) on the property's path -/\ndef forkFlagReads : List String := [")
+	for i, x := range forkReads {
+		if i > 0 {
+			s.WriteString(", ")
+		}
+		s.WriteString(lq(x))
+	}
+	fmt.Fprintf(&s, "]\n\ndef pathFilesScanned : Nat := %d\n", scanned)
+	s.WriteString("\nend Rangers.Generated.C13Sites\n")
 	if err := os.WriteFile(filepath.Join(out, "C13Sites.lean"), []byte(s.String()), 0644); err != nil {
 		die("%v", err)
 	}
